@@ -162,6 +162,12 @@ pub fn run_once(rep: &mut Report, case: &Case, port_order: &[usize], arrival_see
         }
     };
     let mut node = built.node;
+    // the data sets follow the state decision whatever the host's clock answers: in a third of the
+    // cases every clock control call (set_properties at the S1 decision among them) fails
+    if case.arrival_seed % 3 == 0 {
+        node.clock.lock().unwrap().fail_every = Some(1);
+        rep.ev("case_with_failing_clock");
+    }
     // clock quality details via the public setter
     {
         let mut q = node.inst().default_ds().clock_quality;
@@ -228,6 +234,29 @@ pub fn run_once(rep: &mut Report, case: &Case, port_order: &[usize], arrival_see
             if let Err(p) = node.bmca_ordered(port_order) {
                 rep.violation(&format!("C05|panic|{}|{}", p.site(), p.class()), &format!("bmca panicked: {}", p.describe()), replay.clone());
                 return out;
+            }
+            // whatever decision the run took: if it made a port slave of master X (read from the
+            // instance's own parentDS), the data sets are X's right away - table 33, S1 - not only
+            // after X's next Announce has refreshed them
+            {
+                let got = read_outcome(&node);
+                if let Some(si) = got.states.iter().position(|s| *s == PState::Slave) {
+                    let mine: Vec<&MasterSpec> = phase.iter().filter(|m| m.port == si && (idb(m.sender_id), m.sender_port) == got.parent.0).collect();
+                    if mine.len() == 1 {
+                        let a = ann_of(mine[0]);
+                        rep.ev("s1_datasets_checked_immediately");
+                        let want_parent = ((a.sender.0, a.sender.1), a.gm_id, a.class, a.acc, a.var, a.p1, a.p2);
+                        let acc_ok = got.parent.3 == want_parent.3 || (crate::c04::accuracy_is_reserved(got.parent.3) && crate::c04::accuracy_is_reserved(want_parent.3));
+                        let parent_ok = got.parent.0 == want_parent.0 && got.parent.1 == want_parent.1 && got.parent.2 == want_parent.2 && acc_ok && got.parent.4 == want_parent.4 && got.parent.5 == want_parent.5 && got.parent.6 == want_parent.6;
+                        if !parent_ok || got.steps_removed != a.steps.wrapping_add(1) || got.tp != tp_of_ann(&a) {
+                            rep.violation(
+                                "C05|S1|datasets-after-the-deciding-run",
+                                &format!("round {round}: port {} is slave of {:?} but parentDS {:?} / stepsRemoved {} / timePropertiesDS {:?} are not those of its Announce ({:?}, {}, {:?})", si + 1, got.parent.0, got.parent, got.steps_removed, got.tp, want_parent, a.steps.wrapping_add(1), tp_of_ann(&a)),
+                                replay.clone(),
+                            );
+                        }
+                    }
+                }
             }
             if !is_final {
                 continue;
